@@ -118,7 +118,7 @@ impl<'a> BinaryInput for DeserializationContext<'a> {
             abs: self.current.start.wrapping_add(self.current.pos),
             len: count,
         });
-        if self.current.pos + count > self.current.end {
+        if !matches!(self.current.pos.checked_add(count), Some(end) if end <= self.current.end) {
             Err(Error::InputEndedUnexpectedly)
         } else {
             let start = self.current.start + self.current.pos;
@@ -133,7 +133,7 @@ impl<'a> BinaryInput for DeserializationContext<'a> {
             abs: self.current.start.wrapping_add(self.current.pos),
             len: count,
         });
-        if self.current.pos + count > self.current.end {
+        if !matches!(self.current.pos.checked_add(count), Some(end) if end <= self.current.end) {
             Err(Error::InputEndedUnexpectedly)
         } else {
             self.current.pos += count;
